@@ -51,9 +51,9 @@ XFF_T = XFF_Q + [("4.4.4.4, 10.0.0.1, 10.0.0.1",), ("10.0.0.1, 4.4.4.4",),
                  ("4.4.4.4;10.0.0.1",), ("127.1",), ("10.0.0.10",), ("4.4.4.4, 010.0.0.1",),
                  ("localhost",), ("4.4.4.4,,10.0.0.1",), ("3.3.3.3, 2001:db8::4, 10.0.0.1",),
                  ("10.0.0.1", "10.0.0.1")]
-XS_Q = [None, ("https",), ("http",), ("ftp",), ("http, https",), ("",)]
-XS_T = XS_Q + [("https, http",), ("HTTPS",), ("https,",), ("https", "http")]
-XFP_Q = [None, ("https",), ("ftp",), ("https, ftp",)]
+XS_Q = [None, ("https",), ("http",), ("ftp",), ("http, https",), ("",), ("HTTPS",)]
+XS_T = XS_Q + [("https, http",), ("Http",), ("https,",), ("https", "http")]
+XFP_Q = [None, ("https",), ("ftp",), ("https, ftp",), ("ftp, HTTPS",)]
 XFP_T = XFP_Q + [("http",), ("ftp, https",), ("",)]
 # is_valid_ip layer: every string up to length k over this alphabet, plus every
 # entry of the domains above, plus NUL / long / non-ASCII specials
